@@ -45,6 +45,9 @@ class StlPastifier(LtlPastifier, StlAstVisitor):
     def __init__(self):
         LtlPastifier.__init__(self)
         self.node_horizons = dict()
+        # duration of one step of next / s_next, in the default unit: one sampling
+        # period (set by the discrete-time specification before it pastifies)
+        self.step = 1
 
     def normalize_units(self, node):
         # Horizons add up bounds of different operators and the rewritten
@@ -87,7 +90,7 @@ class StlPastifier(LtlPastifier, StlAstVisitor):
         self.ast = ast
         for spec in ast.specs:
             self.normalize_units(spec)
-        h = StlHorizon()
+        h = StlHorizon(self.step)
         horizons = dict()
         for spec in ast.specs:
             horizon = h.visit(spec, None)
@@ -471,12 +474,12 @@ class StlPastifier(LtlPastifier, StlAstVisitor):
         return node
 
     def visitNext(self, node, *args, **kwargs):
-        horizon = args[0] - 1
+        horizon = args[0] - self.step
         child_node = self.visit(node.children[0], horizon)
         return child_node
 
     def visitStrongNext(self, node, *args, **kwargs):
-        horizon = args[0] - 1
+        horizon = args[0] - self.step
         child_node = self.visit(node.children[0], horizon)
         return child_node
 
